@@ -57,7 +57,8 @@ void __CPROVER_assume(_Bool c) {
 void __CPROVER_assert(_Bool c, const char* msg) {
   if (c) return;
   vf_init();
-  if (msg && strncmp(msg, "VF-WITNESS", 10) == 0) { printf("VF-WITNESS-REACHED\n"); fflush(stdout); _Exit(0); }
+  if (msg && strncmp(msg, "VF-WITNESS end", 14) == 0) { printf("VF-WITNESS-REACHED\n"); fflush(stdout); _Exit(0); }
+  if (msg && strncmp(msg, "VF-WITNESS", 10) == 0) return;       /* a secondary reachability witness: an assertion after it may be the one being replayed */
   printf("VF-ASSERT-FAIL: %s\n", msg ? msg : "?"); fflush(stdout); _Exit(1);
 }
 _Bool vf_str_disjunct(void* self, void* s) {   /* std::string::_M_disjunct, see ir2c.py */
